@@ -34,7 +34,7 @@ ok=no
 if [ $rc_clean -eq 0 ] && [ $rc_build -eq 0 ] && [ $rc_mut -ne 0 ] && [ $fails -eq 0 ]; then ok=yes; fi
 res "demo_clean_rc=$rc_clean build_rc=$rc_build demo_mutant_rc=$rc_mut unexpected_suite_failures=$fails confirmed=$ok pkg=$pkg cmd=[$cmd]"
 if [ $ok = yes ]; then
-  D=/verif/seeded/$ID-$M; mkdir -p $D
+  D=/verif/seeded/$ID-${SUFFIX:-}$M; mkdir -p $D
   cp $S/patch.diff $D/patch.diff; if [ "$demo" = demo ]; then cp -r $S/demo $D/demo; else cp $S/$demo $D/$demo; fi
   python3 - "$S/meta.json" "$D/meta.json" "$rc_clean" "$rc_mut" "$fails" <<'PY'
 import json,sys
